@@ -339,7 +339,7 @@ def main():
     print("MANIFEST.json written:", len(checks), "checks,", len(m["not_applicable"]), "not applicable")
 
 
-HOOK_COMMITS = ["83be2c1", "70f7560", "1c72289", "55bd267", "3b24678", "7ff75e2", "14ea588", "8a8fa86", "57f2bf8"]
+HOOK_COMMITS = ["83be2c1", "70f7560", "1c72289", "55bd267", "3b24678", "7ff75e2", "14ea588", "8a8fa86", "57f2bf8", "9a2c717"]
 
 if __name__ == "__main__":
     main()
